@@ -128,7 +128,14 @@ func runWalletSuite(seed uint64, n int, out *Out, stats *Stats) {
 		bal := balance.Uint64()
 		var amount uint64
 		akind := ""
-		switch r.Intn(8) {
+		switch r.Intn(9) {
+		case 8:
+			// an exact multiple of a repeated value
+			exact := basev
+			if len(utxos) > 0 {
+				exact = utxos[r.Intn(len(utxos))].Value(nextTs, set.HalfLife, set.Base, set.ILimit)
+			}
+			amount, akind = 2*exact-minU(2*exact, set.Fee), "two-exact"
 		case 0:
 			amount, akind = 0, "zero"
 		case 1:
@@ -139,7 +146,12 @@ func runWalletSuite(seed uint64, n int, out *Out, stats *Stats) {
 		case 2:
 			amount, akind = bal-minU(bal, set.Fee)+1, "just-above"
 		case 3:
-			amount, akind = basev-minU(basev, set.Fee), "one-exact"
+			// amount + fee exactly equal to one holding's value at the next block time
+			exact := basev
+			if len(utxos) > 0 {
+				exact = utxos[r.Intn(len(utxos))].Value(nextTs, set.HalfLife, set.Base, set.ILimit)
+			}
+			amount, akind = exact-minU(exact, set.Fee), "one-exact"
 		case 4:
 			amount, akind = bal+uint64(r.Intn(1000)), "beyond"
 		default:
@@ -399,6 +411,22 @@ func runViewsSuite(seed uint64, n int, out *Out, stats *Stats) {
 			body = []byte("{not json")
 		}
 		ctl := apayment.NewProgressController(sender, set, watch2, &CapLogger{})
+		if inject < 4 && !failFirst && !badBody && r.Chance(1, 3) {
+			// the same controller has served a request before, when its validator was still on a
+			// private chain with a younger genesis (it has re-synced onto the network chain since)
+			young := NewNode(set, w.wallets[2].Addr)
+			young.Pool.Validate(w.now - set.Interval)
+			ys := backedSender(young)
+			cur := ys
+			sw := &FakeSender{target: "10.7.0.1:10600",
+				utxos:     func(a string) ([]byte, error) { return cur.utxos(a) },
+				firstTs:   func() (int64, error) { return cur.firstTs() },
+				txs:       func() ([]byte, error) { return cur.txs() },
+				getBlocks: func(h uint64) ([]byte, error) { return cur.getBlocks(h) }}
+			ctl = apayment.NewProgressController(sw, set, watch2, &CapLogger{})
+			ctl.GetTransactionProgress(httptest.NewRecorder(), httptest.NewRequest("PUT", "/transaction/output/progress", bytes.NewReader(body)))
+			cur = sender
+		}
 		rec := httptest.NewRecorder()
 		ctl.GetTransactionProgress(rec, httptest.NewRequest("PUT", "/transaction/output/progress", bytes.NewReader(body)))
 		got := fmt.Sprintf("error%d", rec.Code)
